@@ -74,3 +74,90 @@ Proof.
     rewrite !get_slot_set_slot by (autorewrite with rxs; unfold nslots; cbn [r_slots with_slots]; lia). cbn [s_len s_data].
     apply Z.geb_le in Er. unfold MAXLEN in Bd. lia.
 Qed.
+
+Theorem overlong_first_frame : overlong_first_frame_stmt.
+Proof.
+  intros fs m idx i0 f0 (j0 & rest & g0 & A & B & C & D & E & F & G & H & I & J) Hh Hn. subst idx. cbn in Hh. injection Hh as ->.
+  rewrite Hn in B. injection B as ->. cbv zeta in J. destruct J as (J1 & _). rewrite firstn_length in J1. unfold MAXLEN in J1. lia.
+Qed.
+
+Lemma justified_len c fs m idx : justified c fs m idx -> m_len m <= 223.
+Proof.
+  unfold justified, m_len. destruct (rx_fast c (m_pgn m)).
+  - intros (i0 & rest & f0 & A & B & C & D & E & F & G & H & I & J). cbv zeta in J. destruct J as (J1 & J2 & _). rewrite J2, !firstn_length. unfold MAXLEN. lia.
+  - intros (i0 & f0 & A & B & C & D & E & F & G & H & I). rewrite G. unfold MAXLEN in I. lia.
+Qed.
+Theorem delivered_at_most_223 : delivered_at_most_223_stmt.
+Proof.
+  intros gf r0 ops Hgf Cl. destruct (rx_no_corruption gf r0 ops Hgf Cl) as (idxs & J & _). cbv zeta in J.
+  induction J; constructor; auto. eapply justified_len; eauto.
+Qed.
+
+Lemma gf_ok_dlv gf r s : gf_ok gf -> dlv_of (snd (handle_system gf r s)) = [].
+Proof. intros Hgf. know (handle_system gf r s). destruct K as [_ K]. exact K. Qed.
+
+Lemma check_known_fields c p : check_known c p = (rx_known c p, snd (fst (check_known c p)), rx_fast c p).
+Proof. unfold rx_known, rx_fast. destruct (check_known c p) as [[a b] d]. reflexivity. Qed.
+
+Theorem single_frame : single_frame_stmt.
+Proof.
+  intros gf r f Hgf Hlen Hbuf Htp Hfast Hknown Hslot. unfold rx_iter. rewrite rx_frame_nontp by exact Htp. unfold rx_nontp.
+  rewrite check_known_fields, Hfast. cbv zeta. rewrite Hknown. cbn [negb andb].
+  destruct (find_free_slot r (fpgn f) (fsrc f) (fdst f) false) as [slots1 i] eqn:FF. cbn [snd] in Hslot.
+  destruct (find_free_slot_range _ _ _ _ _ _ _ FF) as [Hi0 L1].
+  apply Z.ltb_lt in Hslot. rewrite Hslot. apply Z.ltb_lt in Hslot. unfold nslots in Hslot.
+  rewrite mark_ready_eq. cbv zeta. rewrite get_slot_set_slot by (unfold nslots; cbn [r_slots with_slots]; lia). cbn [s_data s_len].
+  rewrite (copy_buf_first 0) by lia.
+  assert (Hc0 : chunk 0 f = firstn (Z.to_nat (r_len f)) (r_buf f)) by (unfold chunk; rewrite Nat.sub_0_r; reflexivity).
+  assert (Hl : length (chunk 0 f) = Z.to_nat (r_len f)) by (rewrite Hc0, firstn_length; lia).
+  assert (Er : r_len f <= Z.of_nat (length (firstn MAXLEN (chunk 0 f)))) by (rewrite firstn_length, Hl; unfold MAXLEN; lia).
+  destruct (single_data f Er) as (SD1 & _ & _).
+  replace (Z.of_nat (length (firstn MAXLEN (chunk 0 f))) >=? r_len f) with true by (symmetry; apply Z.geb_le; exact Er).
+  match goal with |- context [set_slot (chk_slot ?a i) i ?x] => set (r2 := a); set (s' := x) end.
+  assert (Hn : nslots (set_slot (chk_slot r2 i) i s') = nslots r) by (autorewrite with rxs; subst r2; autorewrite with rxs; unfold nslots; cbn [r_slots with_slots]; lia).
+  rewrite Hn. replace (i <? nslots r) with true by (symmetry; apply Z.ltb_lt; unfold nslots; lia).
+  rewrite get_slot_chk_slot, get_slot_set_slot by (autorewrite with rxs; subst r2; autorewrite with rxs; unfold nslots; cbn [r_slots with_slots]; lia).
+  match goal with |- context [handle_system gf ?a s'] => pose proof (gf_ok_dlv gf a s' Hgf) as Hd; destruct (handle_system gf a s') as [r3 ev2] end.
+  cbn [fst snd] in *. rewrite !dlv_app, Hd. cbn [dlv_of flat_map app]. f_equal.
+  unfold slot_msg. subst s'. cbn [s_pri s_pgn s_src s_dst s_len s_data s_tp]. rewrite SD1, Hc0, fpri_land. reflexivity.
+Qed.
+
+Lemma znth_zset_other {A} (l:list A) i j v d : 0 <= i -> 0 <= j -> j <> i -> znth (zset l i v) j d = znth l j d.
+Proof. intros. unfold znth, zset. apply nth_set_nth_neq. lia. Qed.
+
+Theorem supersede : supersede_stmt.
+Proof.
+  intros r f r1 ev idx i H Htp Hfast Hfirst Hknown FF Hi Hkey. cbv zeta.
+  rewrite rx_frame_nontp in H by exact Htp. unfold rx_nontp in H. rewrite check_known_fields, Hfast in H. cbv zeta in H. rewrite Hknown in H.
+  rewrite byte_fbyte, Hfirst in H. cbn [negb andb Z.eqb] in H. rewrite FF in H.
+  replace (i <? nslots r) with true in H by (symmetry; apply Z.ltb_lt; lia).
+  rewrite mark_ready_eq in H. cbv zeta in H. rewrite get_slot_set_slot in H by (unfold nslots in *; cbn [r_slots with_slots]; lia). cbn [s_data s_len] in H.
+  injection H as <- <- <-.
+  rewrite get_slot_set_slot by (autorewrite with rxs; unfold nslots in *; cbn [r_slots with_slots]; lia).
+  cbn [s_data s_len s_last s_pri s_free]. rewrite !byte_fbyte. rewrite (copy_buf_first 2) by lia.
+  repeat split; auto using fpri_land.
+  - unfold key_match. cbn [s_pgn s_src s_dst s_tp]. rewrite !Z.eqb_refl. reflexivity.
+  - intros j Hj Hne. unfold get_slot. autorewrite with rxs. cbn [r_slots with_slots]. rewrite zset_zset. apply znth_zset_other; lia.
+Qed.
+
+Theorem out_of_sequence_discards : out_of_sequence_discards_stmt.
+Proof.
+  intros r f r1 ev idx i H Htp Hfast Hnf Hknown Hi Hlt Hseq.
+  rewrite rx_frame_nontp in H by exact Htp. unfold rx_nontp in H. rewrite check_known_fields, Hfast in H. cbv zeta in H. rewrite Hknown in H.
+  rewrite !byte_fbyte in H. replace (Z.land (fbyte f 0) 31 =? 0) with false in H by (symmetry; apply Z.eqb_neq; exact Hnf). cbn [negb andb] in H.
+  rewrite <- Hi in H. replace (i <? nslots r) with true in H by (symmetry; apply Z.ltb_lt; lia).
+  replace (s_last (get_slot r i) + 1 =? fbyte f 0) with false in H by (symmetry; apply Z.eqb_neq; exact Hseq).
+  injection H as <- <- <-.
+  pose proof (find_cont_spec (fpgn f) (fsrc f) (fdst f) (r_slots r) 0) as FC. cbv zeta in FC. rewrite <- Hi in FC. destruct FC as (Fr & Fm & Fb).
+  rewrite Z.sub_0_r, Z.add_0_l in *.
+  rewrite get_slot_set_slot by lia. cbn [free_slot s_free s_pgn s_len].
+  repeat split; auto.
+  - intros j Hj Hne. unfold get_slot. autorewrite with rxs. apply znth_zset_other; lia.
+  - (* the freed slot no longer matches: PGN 0 is never a fast-packet PGN *)
+    autorewrite with rxs. intros E.
+    pose proof (find_cont_spec (fpgn f) (fsrc f) (fdst f) (zset (r_slots r) i (free_slot (get_slot r i))) 0) as FC2. cbv zeta in FC2. rewrite E in FC2.
+    destruct FC2 as (_ & Fm2 & _). rewrite Z.sub_0_r, Z.add_0_l, zset_length in Fm2. unfold nslots in Hlt. specialize (Fm2 Hlt).
+    fold (znth (zset (r_slots r) i (free_slot (get_slot r i))) i slot0) in Fm2. rewrite znth_zset_eq in Fm2 by lia.
+    apply key_match_fields in Fm2. destruct Fm2 as (Kp & _). cbn [free_slot s_pgn] in Kp.
+    apply fast_pgn_nz in Hfast. congruence.
+Qed.
